@@ -117,7 +117,10 @@ def idc_star(
         logger.debug(
             f"[{_number_recursions}]: line 4 IDC* algorithm: for each condition, check if rule 2 of do calculus applies"
         )
-        if cf_rule_2_of_do_calculus_applies(cf_graph, new_outcomes, condition):
+        other_conditions = [c for c in new_conditions if c != condition]
+        if cf_rule_2_of_do_calculus_applies(
+            cf_graph, new_outcomes, condition, other_conditions=other_conditions
+        ):
             logger.debug(
                 f"\t[{_number_recursions}]: line 4 IDC* algorithm: rule 2 of do calculus applies:\n\t\t{outcomes} "
                 f"""is D-separated from {condition} in G{"'" * (_number_recursions + 1)} ({condition}_bar)"""
@@ -163,7 +166,11 @@ def idc_star(
 
 
 def cf_rule_2_of_do_calculus_applies(
-    cf_graph: NxMixedGraph, outcomes: Iterable[Variable], condition: Variable
+    cf_graph: NxMixedGraph,
+    outcomes: Iterable[Variable],
+    condition: Variable,
+    *,
+    other_conditions: Iterable[Variable] = (),
 ) -> bool:
     r"""Check if Rule 2 of the Do-Calculus applies to the conditioned variable.
 
@@ -176,6 +183,8 @@ def cf_rule_2_of_do_calculus_applies(
     :param cf_graph: an NxMixedGraph
     :param outcomes: The outcomes to check
     :param condition: The condition to check
+    :param other_conditions: The remaining conditions :math:`\mathbf{Z} - \{Z\}`, which stay
+        conditioned on while the exchange of :math:`Z` is tested
     :returns: If rule 2 applies, see below.
 
     If Rule 2 of the do calculus applies to the conditioned variable, then it can be converted to a do variable.
@@ -191,6 +200,12 @@ def cf_rule_2_of_do_calculus_applies(
     """
     #: also called "blocked nodes"
     conditions = {n for n in cf_graph.nodes() if not is_not_self_intervened(n)}
+    outcomes = set(outcomes)
+    conditions.update(
+        c
+        for c in other_conditions
+        if c in cf_graph.nodes() and c != condition and c not in outcomes
+    )
     graph_mod = cf_graph.remove_out_edges(condition)
     return all(
         are_d_separated(graph_mod, outcome, condition, conditions=conditions)
